@@ -12,6 +12,7 @@ import (
 	"strconv"
 
 	"github.com/alttpo/snes/emulator/bus"
+	"github.com/alttpo/snes/emulator/memory"
 )
 
 type imem struct {
@@ -47,6 +48,16 @@ func busScenario(r *rand.Rand, emit func(map[string]interface{})) {
 	for i := 1; i <= 4; i++ {
 		mems[i] = &imem{id: i, ov: map[uint32]byte{}, acc: &acc}
 	}
+	// memories 5 and 6 are the library's own memory.RAM / *memory.ROM over private arrays (filled with the same
+	// address pattern the instrumented doubles return); they can only be attached inside their home range
+	var realData [7][]byte
+	var realHome [7]uint32
+	realMem := func(id int) memory.Memory {
+		if id == 5 {
+			return memory.NewRAM(realData[5], realHome[5])
+		}
+		return memory.NewROM(realData[6], realHome[6])
+	}
 	// neighbourhood of interest
 	var base uint32
 	switch r.Intn(5) {
@@ -60,6 +71,13 @@ func busScenario(r *rand.Rand, emit func(map[string]interface{})) {
 		base = uint32(r.Intn(1<<20)) << 4
 		if base > 0xFFFD00 {
 			base = 0xFFFD00
+		}
+	}
+	for id := 5; id <= 6; id++ {
+		realHome[id] = base &^ 0xF
+		realData[id] = make([]byte, 0x400)
+		for i := range realData[id] {
+			realData[id][i] = busF(id, realHome[id]+uint32(i))
 		}
 	}
 	span := uint32(0x100)
@@ -133,7 +151,13 @@ func busScenario(r *rand.Rand, emit func(map[string]interface{})) {
 			}
 			m := 1 + r.Intn(4)
 			var err error
-			p := guard(func() { err = b.Attach(mems[m], "m", s, e) })
+			var p string
+			if !multi && r.Intn(3) == 0 && s >= realHome[5] && e < realHome[5]+0x400 && e >= s {
+				m = 5 + r.Intn(2)
+				p = guard(func() { err = b.Attach(realMem(m), "real", s, e) })
+			} else {
+				p = guard(func() { err = b.Attach(mems[m], "m", s, e) })
+			}
 			emit(map[string]interface{}{"k": "attach", "m": m, "s": s, "e": e, "err": err != nil, "panic": p != ""})
 		case x < 5:
 			a := near()
@@ -145,8 +169,20 @@ func busScenario(r *rand.Rand, emit func(map[string]interface{})) {
 			a := near()
 			v := byte(r.Intn(251))
 			acc = acc[:0]
+			var before [7][]byte
+			for id := 5; id <= 6; id++ {
+				before[id] = append([]byte(nil), realData[id]...)
+			}
 			p := guard(func() { b.EaWrite(a, v) })
-			emit(map[string]interface{}{"k": "write", "a": a, "v": int(v), "panic": p != "", "seen": append([][]int{}, acc...)})
+			landed := [][]int{}
+			for id := 5; id <= 6; id++ {
+				for i := range realData[id] {
+					if realData[id][i] != before[id][i] {
+						landed = append(landed, []int{id, int(realHome[id]) + i, int(realData[id][i])})
+					}
+				}
+			}
+			emit(map[string]interface{}{"k": "write", "a": a, "v": int(v), "panic": p != "", "seen": append([][]int{}, acc...), "landed": landed})
 		default:
 			s := near()
 			e := s + uint32(r.Intn(80))
